@@ -228,8 +228,11 @@ func installOps(in *Interp, p *Pkg) {
 				return nil, err
 			}
 		}
+		// "Returns the result expression (or () if omitted)": an omitted result is the result (), so the loop leaves
+		// the same environment behind either way -- the symbol holds the number of turns taken when the result
+		// expression is evaluated, and a closure created in the body reads that afterwards.
+		nenv.vars[cs.Cells[0].S] = Int(maxI(n.I, 0))
 		if len(cs.Cells) == 3 {
-			nenv.vars[cs.Cells[0].S] = Int(maxI(n.I, 0))
 			return in.Eval(nenv, cs.Cells[2])
 		}
 		return Nil(), nil
